@@ -208,6 +208,12 @@ func (in *Interp) vfsOpen(pathV Value, flag int, perm uint32) Value {
 		if flag&oCREATE == 0 {
 			return Tuple{(*Value)(nil), in.fsErr("notexist", "open", ps)}
 		}
+		if flag&oEXCL != 0 {
+			// O_EXCL does not follow a final symbolic link: a dangling link is an existing name
+			if lp, lok := fs.resolve(ps, false); lok && fs.nodes[lp] != nil {
+				return Tuple{(*Value)(nil), in.fsErr("exist", "open", ps)}
+			}
+		}
 		if !in.parentOK(fs, rp) {
 			return Tuple{(*Value)(nil), in.fsErr("notexist", "open", ps)}
 		}
